@@ -220,8 +220,16 @@ var paths = []string{"init", "store", "update", "store-merge"}
 //
 // Returns the service, the number of real ring builds, and a closer.
 func buildReal(nodes []nodeSpec, self, path string) (svc nodeconf.Service, builds int, closeFn func(), err error) {
+	svc, builds, closeFn, _, err = buildRealEff(nodes, self, path)
+	return
+}
+
+// buildRealEff also returns the node list the participant's reported configuration id stands for (see store-merge).
+func buildRealEff(nodes []nodeSpec, self, path string) (svc nodeconf.Service, builds int, closeFn func(), eff []nodeSpec, err error) {
+	eff = nodes
 	conf := toConfiguration("cfg-current", nodes)
 	wantId := "cfg-current"
+	var extra *nodeSpec // store-merge: a node only the application config knows
 	cfg := &cfgComp{c: conf}
 	src := &srcComp{}
 	st := &storeComp{}
@@ -251,7 +259,9 @@ func buildReal(nodes []nodeSpec, self, path string) (svc nodeconf.Service, build
 		if len(cfg.c.Nodes) > 0 {
 			cfg.c.Nodes[0].Addresses = append(append([]string{}, cfg.c.Nodes[0].Addresses...), "verif-extra-address:1")
 		} else {
-			cfg.c.Nodes = append(cfg.c.Nodes, nodeconf.Node{PeerId: makePeerId("extra-coordinator"), Addresses: []string{"verif-extra-address:2"}, Types: []nodeconf.NodeType{nodeconf.NodeTypeCoordinator}})
+			// an all-in-one node of the bootstrap configuration: coordinator and sync node
+			extra = &nodeSpec{PeerId: makePeerId("extra-coordinator"), Types: []string{"coordinator", "tree"}}
+			cfg.c.Nodes = append(cfg.c.Nodes, nodeconf.Node{PeerId: extra.PeerId, Addresses: []string{"verif-extra-address:2"}, Types: []nodeconf.NodeType{nodeconf.NodeTypeCoordinator, nodeconf.NodeTypeTree}})
 		}
 		st.have, st.c = true, toConfiguration("cfg-current", nodes)
 		wantId = "-1"
@@ -263,14 +273,14 @@ func buildReal(nodes []nodeSpec, self, path string) (svc nodeconf.Service, build
 		cfg.c = toConfiguration("cfg-boot", boot)
 		src.have, src.c = true, conf
 	default:
-		return nil, 0, nil, fmt.Errorf("unknown path %q", path)
+		return nil, 0, nil, nil, fmt.Errorf("unknown path %q", path)
 	}
 	a := new(app.App)
 	svc = nodeconf.New()
 	a.Register(cfg).Register(&accComp{keys: &accountdata.AccountKeys{PeerId: self}}).
 		Register(src).Register(st).Register(checkerComp{}).Register(svc)
 	if err = svc.Init(a); err != nil {
-		return nil, 0, nil, fmt.Errorf("Init: %w", err)
+		return nil, 0, nil, nil, fmt.Errorf("Init: %w", err)
 	}
 	builds = 1
 	closeFn = func() {}
@@ -278,22 +288,28 @@ func buildReal(nodes []nodeSpec, self, path string) (svc nodeconf.Service, build
 		changed := make(chan struct{}, 4)
 		svc.ObserveChanges(func(prev, cur nodeconf.NodeConf) { changed <- struct{}{} })
 		if err = svc.Run(context.Background()); err != nil {
-			return nil, 0, nil, fmt.Errorf("Run: %w", err)
+			return nil, 0, nil, nil, fmt.Errorf("Run: %w", err)
 		}
 		closeFn = func() { _ = svc.Close(context.Background()) }
 		select {
 		case <-changed:
 		case <-time.After(2 * time.Minute): // harness guard only, never an oracle
 			closeFn()
-			return nil, 0, nil, fmt.Errorf("harness: the configuration delivered by the source was never applied")
+			return nil, 0, nil, nil, fmt.Errorf("harness: the configuration delivered by the source was never applied")
 		}
 		builds = 2
 	}
-	if got := svc.Configuration().Id; got != wantId {
+	if got := svc.Configuration().Id; path == "store-merge" && (got == "-1" || got == "cfg-current") {
+		// "-1": the merged configuration (stored nodes plus what the application config added), to be re-pulled;
+		// "cfg-current": the participant claims to hold exactly the enumerated configuration and is judged as such
+		if got == "-1" && extra != nil {
+			eff = append(append([]nodeSpec{}, nodes...), *extra)
+		}
+	} else if got != wantId {
 		closeFn()
-		return nil, 0, nil, fmt.Errorf("harness: participant holds configuration %q, not the enumerated one", got)
+		return nil, 0, nil, nil, fmt.Errorf("harness: participant holds configuration %q, not the enumerated one", got)
 	}
-	return svc, builds, closeFn, nil
+	return svc, builds, closeFn, eff, nil
 }
 
 // ---------------------------------------------------------------------------------------------------
@@ -303,6 +319,8 @@ type refRing struct {
 	sync []string            // sorted sync peer ids
 	nc   nodeconf.NodeConf   // real ring of the sync-only configuration, client viewpoint
 	memo map[string][]string // replication key -> sorted responsible set
+	// filled: memo holds every key of the run (set by fillMemo for rings built on demand)
+	filled bool
 }
 
 type refStore struct {
@@ -341,6 +359,20 @@ func (r *refStore) get(syncIds []string) (*refRing, error) {
 	rr := &refRing{sync: syncIds, nc: svc, memo: map[string][]string{}}
 	r.rings[k] = rr
 	return rr, nil
+}
+
+// fillMemo computes the reference sets of a ring that was not prebuilt (merged configurations) for every replication
+// key of the run; under the store's lock, once per ring.
+func (e *evaluator) fillMemo(rr *refRing) {
+	e.refs.mu.Lock()
+	defer e.refs.mu.Unlock()
+	if rr.filled {
+		return
+	}
+	for _, k := range e.keys {
+		rr.set(e.c, k)
+	}
+	rr.filled = true
 }
 
 // set returns the reference responsible set for a dot-free replication key and validates what the property
@@ -945,7 +977,8 @@ func runItem(e *evaluator, it item) {
 				var builds int
 				var closeFn func()
 				var err error
-				if panicked, what := vk.Recover(func() { svc, builds, closeFn, err = buildReal(nodes, self, path) }); panicked {
+				var eff []nodeSpec
+				if panicked, what := vk.Recover(func() { svc, builds, closeFn, eff, err = buildRealEff(nodes, self, path) }); panicked {
 					e.violation("panic while building the participant's node configuration", func() string { return what }, caseT{nodes, self, path, ""})
 					continue
 				}
@@ -961,7 +994,16 @@ func runItem(e *evaluator, it item) {
 					continue
 				}
 				e.c.Count("executions", int64(builds))
-				e.evalParticipant(svc, rr, nodes, self, path)
+				rrUse := rr
+				if len(eff) != len(nodes) {
+					if rrUse, err = e.refs.get(syncOf(eff)); err != nil {
+						e.c.Broken("reference ring for the merged configuration: %v", err)
+						closeFn()
+						continue
+					}
+					e.fillMemo(rrUse)
+				}
+				e.evalParticipant(svc, rrUse, eff, self, path)
 				closeFn()
 			}
 		}
